@@ -115,6 +115,23 @@ func runC14(c *Ctx) {
 				}
 			}
 			c.R.Check(okU, "ComplexityLimit/within-limit-edge", c.ipos(under.If), "complexity <= limit only reaches nil returns", whyU)
+			// and nothing but that edge lets an operation through: every nil return lies behind the comparison
+			okN, whyN := true, ""
+			for _, r := range an.Returns(fn) {
+				if !isNilReturn(r, 0) {
+					continue
+				}
+				behind := under.To.Dominates(r.Block()) || under.To == r.Block()
+				for _, p := range under.To.Preds {
+					if p != under.If.Block() {
+						behind = false
+					}
+				}
+				if !behind {
+					okN, whyN = false, "the success return at "+c.ipos(r)+" can be reached without the comparison having found the complexity within the limit (another condition lets the operation through)"
+				}
+			}
+			c.R.Check(okN, "ComplexityLimit/only-within-limit-passes", c.ipos(under.If), "every nil return lies behind complexity <= limit", whyN)
 		}
 		// the operation whose complexity is computed is the selected one
 		for _, call := range an.CallsIn(fn, func(_ ssa.CallInstruction, ci an.CalleeInfo) bool { return ci.FullName() == pkgComplex+".Calculate" }) {
